@@ -283,6 +283,15 @@ pub fn worker_main(def: &CheckDef, args: &[String]) -> i32 {
         detail_path: Some(out.with_extension("detail")),
         replay: None,
     };
+    // a runaway diagnostic (or generated file) must kill the worker, not fill the scratch file
+    // system: files written by this worker and its children are capped at 1 GiB
+    unsafe {
+        let mut lim = libc::rlimit { rlim_cur: 0, rlim_max: 0 };
+        if libc::getrlimit(libc::RLIMIT_FSIZE, &mut lim) == 0 {
+            lim.rlim_cur = 1 << 30;
+            libc::setrlimit(libc::RLIMIT_FSIZE, &lim);
+        }
+    }
     start_watchdog();
     (def.run)(&mut ctx);
     let _ = std::fs::remove_dir_all(&scratch);
